@@ -5,11 +5,44 @@ uint32_t *SA, *SB;
 uint64_t g_len;
 uint64_t w_a, w_b, w_idx;
 uint8_t w_byte;
+#ifdef ADLER_BAM1
+uint32_t w_ad_init, w_ad_ret;
+uint64_t w_ad_len;
+const unsigned char *w_ad_buf;
+#endif
 #include "splice_defaults.h"
+#ifdef ADLER_BAM1
+#include "igzip/igzip.c"
+#else
 #include "igzip/adler32_base.c"
+#endif
 
+#ifdef ADLER_BAM1
+/* isal_adler32_bam1: loop-free relation to isal_adler32 (callee replaced by its assumed contract) */
+void
+h_isal_adler32_bam1(void)
+{
+        uint32_t seed;
+        uint64_t len;
+        const unsigned char *buf;
+        uint32_t r = isal_adler32_bam1(seed, buf, len);
+        (void) r;
+        VCANARY();
+}
+#else
 void
 h_adler32_base_safety(void)
+{
+        uint32_t seed;
+        uint64_t len;
+        uint8_t *buf;
+        uint32_t r = adler32_base(seed, buf, len);
+        (void) r;
+        VCANARY();
+}
+
+void
+h_adler32_base_congruence(void)
 {
         uint32_t seed;
         uint64_t len;
@@ -29,3 +62,4 @@ h_adler32_base_func(void)
         (void) r;
         VCANARY();
 }
+#endif
